@@ -240,4 +240,292 @@ theorem nested_set_refines (ts : Node) (wl : Bool) (final : Text) (v : Node) (ks
           Kids.upsert_append_right k _ _ _ hkk]
         simp
 
+/-! ### a well-formed path does not start with the scope selector `@` -/
+
+private def AtState (st : NPState) : Prop :=
+  st.inQuotes = false ∧ st.quotedSeg = false ∧ st.buf.head? = some '@'
+
+private theorem npStep_at (st : NPState) (ch : Char) (h : AtState st) :
+    (∃ e, npStep false st ch = .error e) ∨ (∃ st', npStep false st ch = .ok st' ∧ AtState st') := by
+  obtain ⟨h1, h2, h3⟩ := h
+  have hb : st.buf ≠ [] := by intro e; simp [e] at h3
+  have hid : reMatchIdent false st.buf = false := by
+    cases hbuf : st.buf with
+    | nil => exact absurd hbuf hb
+    | cons c cs =>
+      simp only [hbuf, List.head?_cons, Option.some.injEq] at h3
+      subst h3
+      have : identStart '@' = false := by decide
+      simp [reMatchIdent, isIdent, this]
+  unfold npStep
+  simp only [h1, Bool.false_eq_true, if_false]
+  by_cases hd : ch = '.'
+  · left
+    simp [hd, npFinalize, h2, hb, hid]
+  · simp only [hd, if_false]
+    by_cases hq : ch = '"'
+    · left; simp [hq, hb]
+    · right
+      simp only [hq, if_false]
+      refine ⟨_, rfl, ?_, h2, ?_⟩
+      · simp
+      · cases hbuf : st.buf with
+        | nil => exact absurd hbuf hb
+        | cons c cs => simpa [hbuf] using h3
+
+private theorem npRun_at (p : Text) : ∀ st, AtState st →
+    (∃ e, npRun false st p = .error e) ∨ (∃ st', npRun false st p = .ok st' ∧ AtState st') := by
+  induction p with
+  | nil => intro st h; exact Or.inr ⟨st, rfl, h⟩
+  | cons c cs ih =>
+    intro st h
+    rcases npStep_at st c h with ⟨e, he⟩ | ⟨st', he, h'⟩
+    · left; exact ⟨e, by simp [npRun, he]⟩
+    · simp only [npRun, he]; exact ih st' h'
+
+theorem parseNPath_no_at (rest : Text) : ∃ e, parseNPath false ('@' :: rest) = .error e := by
+  unfold parseNPath
+  simp only [List.isEmpty_cons, Bool.false_eq_true, if_false, npRun]
+  have h0 : npStep false {} '@' = .ok { buf := ['@'] } := by decide
+  simp only [h0]
+  rcases npRun_at rest { buf := ['@'] } ⟨rfl, rfl, rfl⟩ with ⟨e, he⟩ | ⟨st', he, h1, h2, h3⟩
+  · exact ⟨e, by simp [he]⟩
+  · simp only [he]
+    split
+    · exact ⟨_, rfl⟩
+    · split
+      · exact ⟨_, rfl⟩
+      · have hb : st'.buf ≠ [] := by intro e; simp [e] at h3
+        have hid : reMatchIdent false st'.buf = false := by
+          cases hbuf : st'.buf with
+          | nil => exact absurd hbuf hb
+          | cons c cs =>
+            simp only [hbuf, List.head?_cons, Option.some.injEq] at h3
+            subst h3
+            have : identStart '@' = false := by decide
+            simp [reMatchIdent, isIdent, this]
+        simp [npFinalize, h2, hb, hid]
+
+theorem formatNPath_unscoped (p : Text) (segs : List Text) (h : formatNPath currentAnchor p = .ok segs) :
+    splitScopeNpath p = .ok none := by
+  cases p with
+  | nil => simp [splitScopeNpath]
+  | cons c cs =>
+    by_cases hc : c = '@'
+    · subst hc
+      obtain ⟨e, he⟩ := parseNPath_no_at cs
+      simp [formatNPath, currentAnchor, he, Except.map] at h
+    · have : (c == '@') = false := by simpa using hc
+      simp [splitScopeNpath, List.takeWhile, this]
+
+theorem Kids.lookup_of_mem_nodup (k : Text) (t : AttrTree) (kids : Kids) (hn : (Kids.keys kids).Nodup)
+    (hm : (k, t) ∈ kids) : Kids.lookup k kids = some t := by
+  induction kids with
+  | nil => simp at hm
+  | cons x r ih =>
+    obtain ⟨k', t'⟩ := x
+    simp only [Kids.keys_cons, List.nodup_cons] at hn
+    rcases List.mem_cons.mp hm with e | hm
+    · injection e with e1 e2; subst e1 e2; simp
+    · have : k' ≠ k := by
+        intro e; subst e
+        exact hn.1 (List.mem_map.mpr ⟨_, hm, rfl⟩)
+      simp only [Kids.lookup_cons, this, if_false]
+      exact ih hn.2 hm
+
+theorem inheritMentions_mem (vs : List Node) (k : Text) (h : inheritMentions vs k = true) :
+    (k, AttrTree.leaf (.ident k)) ∈ denoteL vs := by
+  induction vs with
+  | nil => simp [inheritMentions] at h
+  | cons x r ih =>
+    simp only [inheritMentions, List.any_cons, Bool.or_eq_true] at h
+    simp only [denoteL_cons, List.mem_append]
+    rcases h with h | h
+    · left
+      cases x <;> simp at h
+      rename_i i names
+      simp only [denoteI, List.mem_map]
+      exact ⟨k, h, rfl⟩
+    · right; exact ih h
+
+/-- "the value now at the path is not a reference" (neither an identifier-valued binding nor an
+    inherited name), read off `denote`, is what the last step of `set` needs -/
+theorem finalOK_of_noref (T par : Node) (q : List Text) (final : Text) (hk : KeysOK T)
+    (hq : subAt T q = some par) (hset : par.isSet = true)
+    (h : ∀ nm, treeAt (denote T) (q ++ [final]) ≠ some (.leaf (.ident nm))) : FinalOK par final := by
+  obtain ⟨c, vs, o, m, r, rfl⟩ := (isSet_iff par).mp hset
+  have htp := treeAt_denote q T _ hk hq
+  have hn := nodup_treeAt q _ _ htp hk
+  rw [treeAt_append q [final] _ _ htp] at h
+  simp only [denote_set, treeAt, AttrTree.nodup_node] at h hn
+  constructor
+  · intro b hb val hval
+    obtain ⟨i, ne, val', bf, af, pre, post, rfl, hvs, hpre⟩ := findBinding_some _ _ _ hb
+    simp only [bindValue?, Option.some.injEq] at hval; subst hval
+    simp only [setValues] at hvs; subst hvs
+    obtain ⟨hkk, _⟩ := keys_split final pre post i ne val' bf af hn
+    have hl := (lookup_split final (denoteL pre) (denoteL post) (denote val') hkk).1
+    cases val' with
+    | ident nm =>
+      exfalso; apply h nm
+      simp only [denoteL_append, denoteL_cons, denoteI_bind, List.singleton_append, hl]; rfl
+    | _ => rfl
+  · cases hi : inheritMentions (Node.set c vs o m r).setValues final with
+    | false => rfl
+    | true =>
+      exfalso; apply h final
+      have hm := inheritMentions_mem vs final hi
+      rw [Kids.lookup_of_mem_nodup final _ _ ((AttrTree.nodupL_iff _).mp hn).1 hm]
+
+theorem graft_isNode (ks : List Text) (x t : AttrTree) (hx : x.isNode = true) (ht : t.isNode = true) :
+    (graft ks x t).isNode = true := by
+  cases ks with
+  | nil => simpa using hx
+  | cons k r => cases t <;> simp_all [graft, AttrTree.isNode]
+
+theorem treeAt_node_of_cons (t : AttrTree) (sub : Kids) (ks : List Text) (h : treeAt t ks = some (.node sub)) :
+    ∃ kids, t = .node kids := by
+  cases t with
+  | node kids => exact ⟨kids, rfl⟩
+  | leaf v => cases ks <;> simp [treeAt] at h
+
+/-- `rm` without pruning is: erase the last key in the set found at the parent path. -/
+theorem specRemove_graft (final : Text) (ks : List Text) : ∀ (kids sub : Kids),
+    treeAt (.node kids) ks = some (.node sub) → (Kids.lookup final sub).isSome = true →
+    specRemove (.node kids) (ks ++ [final]) false =
+      some (graft ks (.node (Kids.erase final sub)) (.node kids)) := by
+  induction ks with
+  | nil =>
+    intro kids sub h hl
+    simp only [treeAt_nil, Option.some.injEq, AttrTree.node.injEq] at h; subst h
+    simp [specRemove, specRemoveK_single, hl]
+  | cons k r ih =>
+    intro kids sub h hl
+    simp only [treeAt] at h
+    cases hk : Kids.lookup k kids with
+    | none => simp [hk] at h
+    | some t =>
+      simp only [hk] at h
+      obtain ⟨sub1, rfl⟩ := treeAt_node_of_cons t sub r h
+      have := ih sub1 sub h hl
+      simp only [specRemove, Option.map_eq_some_iff] at this
+      obtain ⟨s', hs', e⟩ := this
+      simp only [specRemove, List.cons_append, specRemoveK_node false kids sub1 k (r ++ [final]) (by simp) hk, hs',
+        Option.map_some, Bool.false_and, Bool.false_eq_true, if_false, graft, hk, Option.getD_some, e]
+
+theorem eraseP_split (pre post : List Node) (b : Node) (q : Node → Bool) (hb : q b = true)
+    (hpre : ∀ x ∈ pre, q x = false) : (pre ++ b :: post).eraseP q = pre ++ post := by
+  induction pre with
+  | nil => simp [hb]
+  | cons y r ih =>
+    have hy := hpre y (by simp)
+    simp only [List.cons_append, List.eraseP_cons, hy, cond_false]
+    rw [ih (fun x hx => hpre x (by simp [hx]))]
+
+theorem bindId_mem_vIds (x : Node) (i : Nat) (h : x.bindId? = some i) : i ∈ vIds x := by
+  cases x <;> simp [bindId?] at h
+  subst h; simp [vIds]
+
+theorem ids_subAt (p : List Text) : ∀ (T cur : Node), (vIds T).Nodup → subAt T p = some cur →
+    (vIds cur).Nodup := by
+  induction p with
+  | nil => intro T cur h hp; simp at hp; subst hp; exact h
+  | cons k ks ih =>
+    intro T cur hid h
+    simp only [subAt] at h
+    cases hs : stepInto T k with
+    | none => simp [hs] at h
+    | some val =>
+      simp only [hs] at h
+      obtain ⟨s, o, m, r, i, ne, bf, af, pre, post, rfl, _⟩ := stepInto_some T k val hs
+      exact ih val cur (ids_split s pre post i k ne val bf af o m r hid).1 h
+
+/-- `del values[i]` for the binding `bid` (and whatever happens to `attrpath_order`) -/
+def IsDelOf (bid : Nat) (g : Node → Node) : Prop :=
+  ∀ s vs o m r, ∃ o', g (.set s vs o m r) = .set s (vs.eraseP fun n => n.bindId? == some bid) o' m r
+
+/-- removing the binding named `k` from the set found at `p` erases `k` there -/
+theorem denote_del_at (T : Node) (hid : IdsOK T) (hk : KeysOK T) (p : List Text) (c : Nat)
+    (vs o : List Node) (m r : Bool) (hp : subAt T p = some (.set c vs o m r)) (k : Text) (b : Node)
+    (hf : findBinding vs k = some b) (bid : Nat) (hb : b.bindId? = some bid) (g : Node → Node)
+    (hg : IsDelOf bid g) :
+    denote (updSet c g T) = graft p (.node (Kids.erase k (denoteL vs))) (denote T) := by
+  rw [denote_updSet_at g p T _ c hid hk hp rfl]
+  obtain ⟨o', e⟩ := hg c vs o m r
+  rw [e]
+  obtain ⟨i, ne, val, bf, af, pre, post, rfl, hvs, hpre⟩ := findBinding_some _ _ _ hf
+  simp only [bindId?, Option.some.injEq] at hb; subst hb
+  subst hvs
+  have htp := treeAt_denote p T _ hk hp
+  have hn := nodup_treeAt p _ _ htp hk
+  simp only [denote_set, AttrTree.nodup_node] at hn
+  obtain ⟨hkk, _⟩ := keys_split k pre post i ne val bf af hn
+  have hsub : (vIds (.set c (pre ++ .bind i k ne val bf af :: post) o m r)).Nodup := by
+    exact ids_subAt p T _ hid hp
+  obtain ⟨_, _, _, hipre, _⟩ := ids_split c pre post i k ne val bf af o m r hsub
+  rw [eraseP_split pre post _ _ (by simp [bindId?]) (fun x hx => by
+    cases hq : x.bindId? with
+    | none => simp
+    | some j =>
+      simp only [beq_eq_false_iff_ne, ne_eq, Option.some.injEq]
+      intro e; subst e
+      exact hipre (vIds_mem_vIdsL x pre hx j (bindId_mem_vIds x j hq)))]
+  simp only [denote_set, denoteL_append, denoteL_cons, denoteI_bind, List.singleton_append,
+    (lookup_split k (denoteL pre) (denoteL post) (denote val) hkk).2.2]
+
+/-- `_resolve_npath_parent(create_missing=False)` only reads -/
+theorem resolveParentWalk_false (ks : List Text) : ∀ (cur : Node) (d : Doc) (res : Except Err Node) (d1 : Doc),
+    (∀ k ∈ ks, plainKey k = true) → resolveParentWalk false cur ks d = (res, d1) →
+    d1 = d ∧ ∀ parent, res = .ok parent → subAt cur ks = some parent ∧ (cur.isSet = true → parent.isSet = true) := by
+  induction ks with
+  | nil =>
+    intro cur d res d1 _ h
+    rw [resolveParentWalk_nil] at h
+    injection h with h1 h2
+    subst h1 h2
+    exact ⟨rfl, fun parent e => by injection e with e; subst e; exact ⟨rfl, id⟩⟩
+  | cons k ks ih =>
+    intro cur d res d1 hplain h
+    simp only [resolveParentWalk] at h
+    cases hg : setGetItem cur k with
+    | ok val =>
+      simp only [hg] at h
+      cases val with
+      | set s2 vs2 o2 m2 r2 =>
+        simp only at h
+        obtain ⟨e1, e2⟩ := ih _ d res d1 (fun k' hk' => hplain k' (by simp [hk'])) h
+        refine ⟨e1, fun parent hp => ?_⟩
+        obtain ⟨h3, h4⟩ := e2 parent hp
+        rcases setGetItem_ok _ k _ (hplain k (by simp)) hg with hst | ⟨_, _, hbad⟩
+        · exact ⟨by simp [subAt, hst, h3], fun _ => h4 rfl⟩
+        · cases hbad
+      | _ =>
+        simp only [EditM.throw_apply] at h
+        injection h with h1 h2
+        exact ⟨h2.symm, fun parent e => by rw [← h1] at e; cases e⟩
+    | error e =>
+      simp only [hg, Bool.not_false, if_true, EditM.throw_apply] at h
+      injection h with h1 h2
+      exact ⟨h2.symm, fun parent e => by rw [← h1] at e; cases e⟩
+
+/-- the mutation `AttributeSet.__delitem__` performs -/
+def delF (bid : Nat) : Node → Node
+  | .set s' vs o m r =>
+      .set s' (vs.eraseP fun n => n.bindId? == some bid)
+        (if o.isEmpty then o else o.eraseP fun n => n.isBind && n.bindId? == some bid) m r
+  | n => n
+
+theorem delF_isDel (bid : Nat) : IsDelOf bid (delF bid) := fun _ _ _ _ _ => ⟨_, rfl⟩
+
+theorem setDelItem_some (s : Node) (key : Text) (c : Nat) (i : Nat) (ne : Bool) (val : Node) (bf af : Payload)
+    (d : Doc) (h1 : findBinding s.setValues key = some (.bind i key ne val bf af)) (h2 : s.setSid? = some c) :
+    setDelItem s key d = (.ok (), d.updSet c (delF i)) := by
+  simp only [setDelItem, h1, h2, bindId?, EditM.modify_apply]
+  rfl
+
+theorem setDelItem_none (s : Node) (key : Text) (d : Doc) (h1 : findBinding s.setValues key = none) :
+    setDelItem s key d = (.error .key, d) := by
+  simp only [setDelItem, h1]
+  cases s.setSid? <;> rfl
+
 end Nima
